@@ -61,8 +61,11 @@ def simulate(choices, main, strategy=("rtb",), netcfg=None, trace_files=None, tr
             if isinstance(e, Exception):
                 tb = e.__traceback__
                 last = None
+                simdir = os.path.join(os.path.dirname(os.path.dirname(os.path.abspath(__file__))), "sim") + os.sep
                 while tb is not None:
-                    last = tb.tb_frame.f_code.co_filename
+                    fn_ = tb.tb_frame.f_code.co_filename
+                    if not os.path.abspath(fn_).startswith(simdir):
+                        last = fn_          # (errors raised by the simulated kernel on behalf of a library call count as the library's)
                     tb = tb.tb_next
                 root = os.path.join(os.environ.get("VERIF_REPO", "/repo"), "rpyc") + os.sep
                 if last and os.path.abspath(last).startswith(os.path.abspath(root)):
